@@ -645,5 +645,7 @@ func factsC18(r *Repo) []Fact {
 	out = append(out, c18MemFacts(rp)...)
 	// ---------- calls to tools that do not exist (c18_tools.go) ----------
 	out = append(out, c18ToolsFacts(rp, cp)...)
+	// ---------- the context a tool is called with (c18_ctx.go) ----------
+	out = append(out, c18CtxFacts(cp)...)
 	return out
 }
